@@ -4,7 +4,7 @@ CONSTANT CmrN = 8
 CONSTANT Mode = "programs"
 CONSTANT N = 5
 CONSTANT Bytes = 2
-CONSTANT EmitMod = 13
+CONSTANT EmitMod = 3
 CONSTANT ProgOps <- Ops_c01_small
 INVARIANT Canonical
 INVARIANT Rules
